@@ -37,6 +37,7 @@ properties! {
     "C01" => c01,
     "C02" => c02,
     "C03" => c03,
+    "C04" => c04,
     "C05" => c05,
 }
 
